@@ -10,6 +10,7 @@ the theorems are generic in `V` and `E`).  They hold for every capacity and ever
 result is claimed and arbitrary (injection armed at any callback) in the exception-safety versions.
 -/
 import Micromap.Proofs.Iters
+import Micromap.Proofs.StdIter
 
 namespace Micromap.Props.C10
 open Micromap Micromap.Iters
@@ -296,6 +297,126 @@ theorem set_drain_op (hv : E.vGlue = false) (take : Nat) (forget : Bool) {s : St
   rw [(no_value_glue E hv _).2] at h3
   exact h3
 
+/-! ### std's provided methods on the owning iterators: `nth`, `last`, `count`
+
+`Model/StdIter.lean` writes `Iterator::nth`, `last` and `count` exactly as core defines them over the
+model's `next` (the crate overrides none of them on `IntoIter`, `IntoKeys`, `IntoValues`, `Drain`:
+tools/inventory.json), with std's drops of the skipped items between the calls and the iterator
+dropped by the caller's frame when one of those drops unwinds.  The driver executes these
+definitions for `nth(k)`, `nth(usize::MAX)`, `last()` and `count()` lines against the real crate,
+also under fault enumeration. -/
+
+open Micromap.StdIterP in
+/-- **Consuming iterators through `nth` / `last` / `count`, in ANY world** (any `==`, a panic armed
+    at any destructor call, either profile), every kind, every `k`: never `ub`; whether the call
+    returns or unwinds, the map was consumed exactly (the register holds a fresh `new()`); a panic can
+    only be the injected one; and what is handed out is exactly what stepping with `next` gives —
+    `nth(k)` the `k`-th entry from the back (`None` beyond the end), `last()` the entry in slot 0,
+    `len()` afterwards what is left, `count()` that number — with the exact effect trace. -/
+theorem into_iter_provided_methods (kind : IntoKind) (take : StdTake) (fin : StdEnd) {s : St K V Q}
+    {l : List (K × V)} (hr : Rep s.r l) :
+    Sat (intoIterStdOp E kind take fin) s
+      (fun res s' => s'.r = Raw.new s.r.cap ∧
+        res = (intoItems take l, stdRem take l.length, l.take (stdRem take l.length),
+          stdCnt fin (stdRem take l.length)) ∧
+        WRel s.w s'.w (intoTakeTr E kind take l ++ intoFinTr E kind fin (l.take (stdRem take l.length))))
+      (fun c s' => s'.r = Raw.new s.r.cap ∧ InjPanic s s' c) :=
+  intoIterStdOp_sat E kind take fin hr
+
+open Micromap.StdIterP in
+/-- `nth(k)` spelled out: the `k`-th entry from the back or `None`; `len()` is `|l| - (k+1)`; the
+    iterator still owns the untouched front. -/
+theorem into_iter_nth (kind : IntoKind) (k : Nat) (fin : StdEnd) {s : St K V Q}
+    {l : List (K × V)} (hr : Rep s.r l) :
+    Sat (intoIterStdOp E kind (.nth k) fin) s
+      (fun res s' => s'.r = Raw.new s.r.cap ∧
+        res = (l.reverse[k]?.toList, l.length - (k + 1), l.take (l.length - (k + 1)),
+          stdCnt fin (l.length - (k + 1))))
+      (fun c s' => s'.r = Raw.new s.r.cap ∧ InjPanic s s' c) :=
+  intoIterStdOp_nth E kind k fin hr
+
+open Micromap.StdIterP in
+/-- `last()`: the last item yielded is the entry in slot 0; nothing is left. -/
+theorem into_iter_last (kind : IntoKind) (fin : StdEnd) {s : St K V Q}
+    {l : List (K × V)} (hr : Rep s.r l) :
+    Sat (intoIterStdOp E kind .last fin) s
+      (fun res s' => s'.r = Raw.new s.r.cap ∧ res = (l.head?.toList, 0, [], stdCnt fin 0))
+      (fun c s' => s'.r = Raw.new s.r.cap ∧ InjPanic s s' c) :=
+  intoIterStdOp_last E kind fin hr
+
+open Micromap.StdIterP in
+/-- when `last()` unwinds, the only objects newly recorded as leaked are those of ONE entry of the
+    map (the item that sat in std's return place); on the normal path nothing is leaked. -/
+theorem into_iter_last_leaks_one_item (kind : IntoKind) (fuel : Nat) (acc : Option (K × V))
+    (s : St K V Q) (l : List (K × V)) (hr : Rep s.r l) :
+    Sat (intoIterLast E kind fuel acc) s (fun _ s' => s'.w.leaked = s.w.leaked)
+      (fun _ s' => ∃ p ∈ l, s'.w.leaked = s.w.leaked ++ leakObjs kind p) :=
+  intoIterLast_leaked E kind fuel acc s l hr
+
+open Micromap.StdIterP in
+/-- **`Drain` through `nth` / `last` / `count`, in ANY world**: never `ub`; the map is empty and
+    reusable afterwards whether the call returns or unwinds (`drain` always empties); the results are
+    those of stepping with `next` — `nth(k)` the `k`-th entry in slot order, `last()` the last one. -/
+theorem drain_provided_methods (take : StdTake) (fin : StdEnd) {s : St K V Q} {l : List (K × V)}
+    (hr : Rep s.r l) :
+    Sat (drainStdOp E take fin) s
+      (fun res s' => Rep s'.r [] ∧ s'.r.cap = s.r.cap ∧
+        res = (drainItems take l, stdRem take l.length, l.drop (l.length - stdRem take l.length),
+          stdCnt fin (stdRem take l.length)) ∧
+        WRel s.w s'.w (drainTakeTr E take l ++ drainFinTr E fin (l.drop (l.length - stdRem take l.length))))
+      (fun c s' => Rep s'.r [] ∧ s'.r.cap = s.r.cap ∧ InjPanic s s' c) :=
+  drainStdOp_sat E take fin hr
+
+open Micromap.StdIterP in
+theorem drain_nth_any_world (k : Nat) (fin : StdEnd) {s : St K V Q} {l : List (K × V)} (hr : Rep s.r l) :
+    Sat (drainStdOp E (.nth k) fin) s
+      (fun res s' => Rep s'.r [] ∧ s'.r.cap = s.r.cap ∧
+        res = (l[k]?.toList, l.length - (k + 1), l.drop (k + 1), stdCnt fin (l.length - (k + 1))))
+      (fun c s' => s'.r.len = 0 ∧ s'.r.cap = s.r.cap ∧ InjPanic s s' c) :=
+  drainStdOp_nth E k fin hr
+
+open Micromap.StdIterP in
+/-- `drain().last()`; if it unwinds, no live slot is left in the drained range (the `Drain` was
+    dropped), so nothing can be destroyed a second time later. -/
+theorem drain_last_any_world (fin : StdEnd) {s : St K V Q} {l : List (K × V)} (hr : Rep s.r l) :
+    Sat (drainStdOp E .last fin) s
+      (fun res s' => Rep s'.r [] ∧ s'.r.cap = s.r.cap ∧ res = (l.getLast?.toList, 0, [], stdCnt fin 0))
+      (fun c s' => s'.r.len = 0 ∧ s'.r.cap = s.r.cap ∧ InjPanic s s' c ∧
+        ∀ j, j < l.length → s'.r.slots j = none) :=
+  drainStdOp_last E fin hr
+
+open Micromap.StdIterP in
+/-- benign world, whole pairs: `into_iter().nth(k)` destroys exactly the `k` skipped pairs (each once,
+    in yield order), then — when the iterator is dropped / counted — exactly what is left. -/
+theorem into_iter_nth_effects (k : Nat) (fin : StdEnd) {s : St K V Q} {l : List (K × V)}
+    (hr : Rep s.r l) (hb : Benign s.w) :
+    ∃ s', intoIterStdOp E .pairs (.nth k) fin s =
+        .ok (l.reverse[k]?.toList, l.length - (k + 1), l.take (l.length - (k + 1)),
+          stdCnt fin (l.length - (k + 1))) s' ∧
+      s'.r = Raw.new s.r.cap ∧
+      WRel s.w s'.w (dropTrace E (l.reverse.take k) ++ pairsFinTr E fin (l.take (l.length - (k + 1)))) :=
+  into_iter_nth_pairs E k fin hr hb
+
+open Micromap.StdIterP in
+/-- benign world: `drain().nth(k)` destroys exactly the `k` skipped entries, then the rest of the range. -/
+theorem drain_nth_effects (k : Nat) (fin : StdEnd) {s : St K V Q} {l : List (K × V)}
+    (hr : Rep s.r l) (hb : Benign s.w) :
+    ∃ s', drainStdOp E (.nth k) fin s =
+        .ok (l[k]?.toList, l.length - (k + 1), l.drop (k + 1), stdCnt fin (l.length - (k + 1))) s' ∧
+      Rep s'.r [] ∧ s'.r.cap = s.r.cap ∧
+      WRel s.w s'.w (dropTrace E (l.take k) ++ drainFinTr E fin (l.drop (k + 1))) :=
+  drain_nth E k fin hr hb
+
+open Micromap.StdIterP in
+/-- memory safety of both composites from `Safe` alone (no assumption on `==`, profile, injection). -/
+theorem provided_methods_safe (kind : IntoKind) (take : StdTake) (fin : StdEnd) {s : St K V Q} (hs : Safe s.r) :
+    Sat (intoIterStdOp E kind take fin) s (fun _ s' => s'.r = Raw.new s.r.cap)
+      (fun _ s' => s'.r = Raw.new s.r.cap) ∧
+    Sat (drainStdOp E take fin) s (fun _ s' => Safe s'.r ∧ s'.r.len = 0 ∧ s'.r.cap = s.r.cap)
+      (fun _ s' => Safe s'.r ∧ s'.r.len = 0 ∧ s'.r.cap = s.r.cap) :=
+  stdOps_safe E kind take fin hs
+
+
 /-! Non-vacuity: a concrete container meets the hypotheses, and the model computes what the
     theorems say (tests, not proofs). -/
 
@@ -323,5 +444,13 @@ example : (match drainOp exEnv 1 false exSt with | .ok x s' => some (x, s'.r.len
     some (([(7, 70)], 2, [(8, 80), (9, 90)]), 0) := by decide
 example : (match intoIterOp exEnv .keys 2 false exSt with | .ok x s' => some (x, s'.r.len) | _ => none) =
     some (([(9, 90), (8, 80)], 1, [(7, 70)]), 0) := by decide
+example : (match intoIterStdOp exEnv .pairs (.nth 1) .count exSt with
+    | .ok x s' => x == ([(8, 80)], 1, [(7, 70)], some 1) && s'.r.len == 0 | _ => false) = true := by decide +kernel
+example : (match drainStdOp exEnv .last .drop exSt with
+    | .ok x s' => x == ([(9, 90)], 0, [], none) && s'.r.len == 0 | _ => false) = true := by decide +kernel
+-- with an armed fault the operations do unwind (the unwinding postconditions are not vacuous)
+example : (match intoIterStdOp exEnv .pairs (.nth 2) .drop { exSt with w := { inject := some 1 } } with
+    | .panic c s' => some (c, s'.r.len, (s'.r.slots 0).isSome) | _ => none) =
+    some (.inject, 0, false) := by decide +kernel
 
 end Micromap.Props.C10
